@@ -10,6 +10,7 @@ from jinja2 import nodes as N
 from ..core import AnalysisError, RuleSpec
 from ..jmodel import JModel, sym
 from ..pymodel import call_name
+from .. import astq
 from . import c09
 
 EXPLANATION = (
@@ -40,6 +41,9 @@ NON_SOURCES = {
 }
 
 
+ORIGINS: Dict[int, Tuple[ast.AST, ast.Call]] = {}    # id(site node) -> (function, QUOTES_RE.sub call) it stems from
+
+
 def restoration_sites(py) -> List[Tuple[str, ast.AST, str]]:
     """(target name, node, function qualname) for each `T = ... QUOTES_RE.sub(<uses strings[..]>, ...)`."""
     out = []
@@ -65,6 +69,34 @@ def restoration_sites(py) -> List[Tuple[str, ast.AST, str]]:
                         t = n.targets[0]
                         name = t.id if isinstance(t, ast.Name) else (t.attr if isinstance(t, ast.Attribute) else ast.unparse(t))
                         out.append((name, n, py.qualname(fn)))
+                        ORIGINS[id(n)] = (fn, c)
+    # a restoration inside a helper whose result is returned: the real targets are the assignment targets at the
+    # helper's call sites  (initial = _restore_string_literals(initial, parent.strings))
+    for _ in range(2):
+        nxt = []
+        changed = False
+        for name, node, q in out:
+            fn = py.enclosing_function(node)
+            returned = fn is not None and any(isinstance(r, ast.Return) and isinstance(r.value, ast.Name) and r.value.id == name
+                                              for r in ast.walk(fn))
+            if not returned or py.enclosing_class(fn) is not None and fn.name.startswith("__"):
+                nxt.append((name, node, q))
+                continue
+            sites = [a for _, f2 in py.all_functions() for a in ast.walk(f2) if isinstance(a, ast.Assign)
+                     and any(isinstance(c, ast.Call) and call_name(c).split(".")[-1] == fn.name for c in ast.walk(a.value))]
+            if not sites:
+                nxt.append((name, node, q))
+                continue
+            changed = True
+            for a in sites:
+                t = a.targets[0]
+                nm = t.id if isinstance(t, ast.Name) else (t.attr if isinstance(t, ast.Attribute) else ast.unparse(t))
+                nxt.append((nm, a, py.qualname(py.enclosing_function(a))))
+                if id(node) in ORIGINS:
+                    ORIGINS[id(a)] = ORIGINS[id(node)]
+        out = nxt
+        if not changed:
+            break
     return out
 
 
@@ -175,17 +207,64 @@ def r2_no_transform_after_restore(ctx, rep):
                 f"`{ast.unparse(bad[0])[:80]}` rewrites `{name}` after the character literals were put "
                 f"back: the displayed literal differs from the source"),
                py.nloc(bad[0] if bad else node))
-    # the only transformations of the literal text itself are the two documented ones
-    fn = py.func("sourceform.line_to_variables")
-    trans = []
-    for st in ast.walk(fn):
-        if isinstance(st, ast.Assign) and any(isinstance(t, ast.Name) and t.id == "string" for t in st.targets):
-            trans.append(ast.unparse(st.value))
-    ok = len(trans) == 2 and any("NBSP_RE.sub" in t for t in trans) and any(
-        "replace('\\\\', '\\\\\\\\')" in t for t in trans)
+    # the only transformations of the literal text itself are the two documented ones: look at what reaches the
+    # replacement argument of QUOTES_RE.sub at the restoration that feeds `initial` (helpers are followed)
+    ltv = py.func("sourceform.line_to_variables")
+    subs = [ORIGINS[id(node)] for name, node, q in restoration_sites(py) if name == "initial" and id(node) in ORIGINS]
+    if not subs:
+        raise AnalysisError("line_to_variables: the QUOTES_RE.sub restoration of `initial` was not found")
+    trans: Set[str] = set()
+    bad_replace = []
+
+    def visit(e: ast.AST, h, lit_names: Set[str], depth: int = 0) -> bool:
+        """does `e` carry literal text?  every call applied to literal text is recorded as a transformation"""
+        if depth > 8:
+            return False
+        if isinstance(e, ast.Subscript) and ast.unparse(e.value).split(".")[-1] == "strings":
+            return True
+        if isinstance(e, ast.Name):
+            if e.id in lit_names:
+                return True
+            vals = [v for _, v in astq.assignments(h, e.id) if v is not None]
+            plain = [v for v in vals if not any(isinstance(x, ast.Name) and x.id == e.id for x in ast.walk(v))]
+            selfref = [v for v in vals if v not in plain]
+            lit = any(visit(v, h, lit_names, depth + 1) for v in plain)
+            if lit:
+                for v in selfref:      # x = f(x): a further transformation of the literal text
+                    visit(v, h, lit_names | {e.id}, depth + 1)
+            return lit
+        if isinstance(e, ast.Call):
+            parts = ([e.func.value] if isinstance(e.func, ast.Attribute) else []) + list(e.args) + [k.value for k in e.keywords]
+            lits = [visit(x, h, lit_names, depth + 1) for x in parts]
+            if not any(lits):
+                return False
+            cn = call_name(e)
+            last = cn.split(".")[-1]
+            if isinstance(e.func, ast.Name) and f"sourceform.{e.func.id}" in py.functions:
+                hh = py.functions[f"sourceform.{e.func.id}"]
+                bound = {k for k, v in astq.bind_args(e, hh).items() if visit(v, h, lit_names, depth + 1)}
+                return any(visit(r, hh, bound, depth + 1) for r in astq.returns(hh))
+            if last in ("int", "len", "str"):
+                return last == "str"
+            if cn.endswith("_RE.sub"):
+                trans.add(cn)
+            elif isinstance(e.func, ast.Attribute):
+                trans.add("." + last)
+                if last == "replace" and [ast.unparse(x) for x in e.args] != ["'\\\\'", "'\\\\\\\\'"]:
+                    bad_replace.append(ast.unparse(e)[-40:])
+            else:
+                trans.add(cn)
+            return True
+        if isinstance(e, (ast.BinOp, ast.JoinedStr, ast.FormattedValue, ast.IfExp, ast.BoolOp)):
+            return any(visit(c, h, lit_names, depth + 1) for c in ast.iter_child_nodes(e) if isinstance(c, ast.expr))
+        return False
+
+    for h, c in subs:
+        visit(c.args[0], h, set())
+    ok = trans == {"NBSP_RE.sub", ".replace"} and not bad_replace
     rep.ob("line_to_variables literal transformations", ok,
            "restored literal text is only changed by NBSP_RE (repeated blanks -> nbsp) and backslash doubling"
-           if ok else f"restored literal text is transformed by {trans}", py.nloc(fn))
+           if ok else f"restored literal text is transformed by {sorted(trans)} {bad_replace}", py.nloc(ltv))
 
 
 def later_reachable(py, node, fn) -> List[ast.stmt]:
